@@ -364,6 +364,8 @@ impl<DB: Database> Inspector<DB> for Recorder {
         let mut fails: Vec<(&'static str, String)> = vec![];
         let mut op_done: Option<u8> = None;
         let mem_len = interp.shared_memory.len();
+        let nframes = self.frames.len();
+        let grew_in_child = nframes >= 2 && self.frames[nframes - 2].last_mem_len > 0;
         if let Some(f) = self.frames.last_mut() {
             if !f.in_step {
                 fails.push(("C29|step_end-without-step", "step_end without a preceding step".into()));
@@ -371,6 +373,9 @@ impl<DB: Database> Inspector<DB> for Recorder {
             f.in_step = false;
             if let Some((op, gas_before, mem_before)) = f.pending_op.take() {
                 op_done = Some(op);
+                if mem_len > mem_before && grew_in_child {
+                    self.mem_nested_growth = true;
+                }
                 if self.cfg.mem {
                     // MLOAD / MSTORE / MSTORE8: gas = 3 + expansion (quadratic formula, u128)
                     if matches!(op, 0x51 | 0x52 | 0x53) && res == InstructionResult::Continue {
